@@ -33,6 +33,11 @@ struct Obj {
 /// Build an object with the given subset of common sections; `rot` rotates the section order;
 /// `link` (if any) overrides sh_link of .symtab and .dynsym.
 fn object(enc: Enc, subset: u64, rot: usize, link: Option<u32>) -> Obj {
+    object_ext(enc, subset, rot, link, None)
+}
+
+/// `first`: build WITHOUT the leading null section header and put the named section at index 0
+fn object_ext(enc: Enc, subset: u64, rot: usize, link: Option<u32>, first: Option<&[u8]>) -> Obj {
     let symsz = layout(Kind::Sym, enc.class).size as u64;
     let dynsz = layout(Kind::Dyn, enc.class).size as u64;
     let g = build_gnu(enc, &[b"".to_vec(), b"loc".to_vec()], &[b"memset".to_vec(), b"ab".to_vec(), b"bA".to_vec()], 2, 1, 5);
@@ -69,7 +74,14 @@ fn object(enc: Enc, subset: u64, rot: usize, link: Option<u32>) -> Obj {
         secs.reverse();
     }
     secs.rotate_left(rot % 9 % n);
-    let pos = |name: &[u8], secs: &Vec<Sec>| secs.iter().position(|x| x.name == name).map(|p| p as u32 + 1).unwrap_or(0);
+    if let Some(f) = first {
+        if let Some(p) = secs.iter().position(|x| x.name == f) {
+            let s = secs.remove(p);
+            secs.insert(0, s);
+        }
+    }
+    let base: u32 = if first.is_some() { 0 } else { 1 };
+    let pos = |name: &[u8], secs: &Vec<Sec>| secs.iter().position(|x| x.name == name).map(|p| p as u32 + base).unwrap_or(0);
     let (dynsym_i, dynstr_i, strtab_i) = (pos(b".dynsym", &secs), pos(b".dynstr", &secs), pos(b".strtab", &secs));
     let dynamic_i = pos(b".dynamic", &secs) as usize;
     for s in secs.iter_mut() {
@@ -83,6 +95,7 @@ fn object(enc: Enc, subset: u64, rot: usize, link: Option<u32>) -> Obj {
     }
     let mut spec = Spec::new(enc, TableOrder::Linker);
     spec.secs = secs;
+    spec.no_null_section = first.is_some();
     if subset & PTDYN != 0 {
         // PT_DYNAMIC designates the same bytes as .dynamic (which exists whenever PT_DYNAMIC does)
         spec.segs = vec![
@@ -289,6 +302,58 @@ impl Space for Presence {
     }
 }
 
+/// Objects written without the leading null section header: each common section in turn sits at
+/// section index 0.
+struct NoNull;
+const FIRSTS: [&[u8]; 7] = [b".symtab", b".dynsym", b".dynamic", b".hash", b".gnu.hash", b".strtab", b".text"];
+impl Space for NoNull {
+    fn name(&self) -> String {
+        "objects without a null section header, with .symtab / .dynsym / .dynamic / .hash / .gnu.hash / .strtab / .text in turn at section index 0 x 4 encodings x 3 rotations: find_common_data vs targeted accessors vs ground truth".into()
+    }
+    fn size(&self) -> u64 {
+        7 * 4 * 3
+    }
+    fn describe(&self, idx: u64) -> Value {
+        let d = unmix(idx, &[7, 4, 3]);
+        json!({"section_at_index_0": String::from_utf8_lossy(FIRSTS[d[0] as usize]), "encoding": ENCS[d[1] as usize].name(), "rotation": d[2] * 2})
+    }
+    fn run(&self, idx: u64, out: &mut Outcome) {
+        let d = unmix(idx, &[7, 4, 3]);
+        let enc = ENCS[d[1] as usize];
+        let o = object_ext(enc, 31, d[2] as usize * 2, None, Some(FIRSTS[d[0] as usize]));
+        let ctx = format!("{} no null section, index 0 = {}, rotation {}", enc.name(), String::from_utf8_lossy(FIRSTS[d[0] as usize]), d[2] * 2);
+        let mut qnames: Vec<Vec<u8>> = o.dyn_names.clone();
+        qnames.push(b"absent".to_vec());
+        out.transitions += 4;
+        match observe(&o.bytes, &qnames) {
+            Err(m) => out.violate(format!("panic:ElfBytes in {}", panic_site(&m)), format!("{ctx}: {m}")),
+            Ok(None) => out.violate("generated-object-does-not-open", ctx),
+            Ok(Some(p)) => match &p.common {
+                None => out.violate("find_common_data:fails on a well-formed object", ctx),
+                Some(c) => {
+                    for (name, common, targeted) in [("symtab", c.0, &p.symtab), ("dynsyms", c.1, &p.dynsym), ("dynamic", c.2, &p.dynamic)] {
+                        match targeted {
+                            Some(Some(t)) if common == Some(*t) => {}
+                            _ => out.violate(format!("common-vs-targeted:{name}"), format!("{ctx}: find_common_data present={:?}, targeted accessor {:?}", common.is_some(), targeted.map(|x| x.is_some()))),
+                        }
+                    }
+                    if !c.3 || !c.4 {
+                        out.violate("presence:hash tables", format!("{ctx}: sysv {} gnu {}", c.3, c.4));
+                    }
+                    for (k, n) in qnames.iter().enumerate() {
+                        let truth_sysv = o.dyn_names.iter().enumerate().skip(1).find(|(_, x)| *x == n).map(|(i, _)| i);
+                        let truth_gnu = o.dyn_names.iter().enumerate().skip(o.symoffset).find(|(_, x)| *x == n).map(|(i, _)| i);
+                        if p.sysv_finds.get(k) != Some(&Some(truth_sysv)) || p.gnu_finds.get(k) != Some(&Some(truth_gnu)) {
+                            out.violate("common-hash-table:lookup", format!("{ctx}: find({:?}) sysv {:?} gnu {:?}, ground truth {:?} / {:?}", String::from_utf8_lossy(n), p.sysv_finds.get(k), p.gnu_finds.get(k), truth_sysv, truth_gnu));
+                        }
+                    }
+                    out.nontrivial(idx ^ c.0.unwrap_or(0));
+                }
+            },
+        }
+    }
+}
+
 /// sh_link of .symtab / .dynsym pointing at every section index: both paths must agree.
 struct Links;
 impl Space for Links {
@@ -378,7 +443,15 @@ impl Space for ByName {
         }
         truth.push(Some(".shstrtab".into()));
         let mut dig = Fnv::new();
-        for q in QUERIES {
+        // a query with an interior NUL can never equal a section name: it spells out adjacent entries
+        let mut queries: Vec<String> = QUERIES.iter().map(|s| s.to_string()).collect();
+        for w in truth.windows(2) {
+            if let (Some(a), Some(b)) = (&w[0], &w[1]) {
+                queries.push(format!("{a}\0{b}"));
+                queries.push(format!("{a}\0"));
+            }
+        }
+        for q in queries.iter().map(|s| s.as_str()) {
             let want = truth.iter().position(|t| t.as_deref() == Some(q));
             out.transitions += 2;
             let slice = subject(|| ElfBytes::<AnyEndian>::minimal_parse(&built.bytes).ok().and_then(|f| f.section_header_by_name(q).ok()).map(|o| o.map(|h| h.sh_flags)));
@@ -482,7 +555,7 @@ pub fn build_def(tier: Tier) -> CheckDef {
         level: "model_checking",
         rule: "complete enumeration of generated objects (all 48 admissible presence subsets of the common constructs x encodings x section-order rotations; every sh_link target; every assignment of a name alphabet to the sections; every exported section/segment type value +-1) with cross-path oracles: one-pass discovery == targeted accessors == ground truth, by-name == first section whose name string equals the query, typed views refused iff the type mismatches, .dynamic via section == via PT_DYNAMIC. non-trivial = object on which the paths return data".into(),
         assumptions: vec!["scope as stated by the property: at most one section of each kind; a PT_DYNAMIC segment is accompanied by a .dynamic section whenever section headers exist".into()],
-        spaces: vec![Box::new(Presence { all_rotations: tier == Tier::Thorough }), Box::new(Links), Box::new(ByName { nsec: tier.pick(4, 5) }), Box::new(TypeGate)],
+        spaces: vec![Box::new(Presence { all_rotations: tier == Tier::Thorough }), Box::new(Links), Box::new(NoNull), Box::new(ByName { nsec: tier.pick(4, 5) }), Box::new(TypeGate)],
         abort_is_violation: false,
         hang_is_violation: false,
         exhaustive: true,
